@@ -229,6 +229,11 @@ func (f *FuncCtx) assign(st *State, x *ast.AssignStmt) {
 		if lt != nil && v.GoT == nil {
 			v.GoT = lt
 		}
+		if len(x.Rhs) == len(x.Lhs) {
+			if _, isSel := ast.Unparen(l).(*ast.SelectorExpr); isSel {
+				f.sliceAliasCheck(st, lt, x.Rhs[i])
+			}
+		}
 		f.assignTo(st, l, v)
 	}
 }
@@ -544,11 +549,12 @@ func (f *FuncCtx) typeSwitch(st *State, x *ast.TypeSwitchStmt, label string) *Fl
 // ---------- loops ----------
 
 type loopTargets struct {
-	direct map[*types.Var]bool // assigned as a whole (not only through element stores s[i] = v)
-	vars   map[*types.Var]bool
-	heaps  map[string]bool
-	ghost  map[string]bool
-	all    bool
+	freshHeaps map[string]bool     // written only at objects allocated inside the loop (callee `fresh T.*` frames)
+	direct     map[*types.Var]bool // assigned as a whole (not only through element stores s[i] = v)
+	vars       map[*types.Var]bool
+	heaps      map[string]bool
+	ghost      map[string]bool
+	all        bool
 }
 
 // assignedIn computes what a loop body may modify (syntactic over-approximation).
@@ -639,6 +645,26 @@ func (f *FuncCtx) havocTargets(st *State, lt *loopTargets) {
 		}
 	}
 	var hs []string
+	if !lt.all && len(lt.freshHeaps) > 0 {
+		al0 := f.heapTerm(st, "alloc", "(Array Int Bool)")
+		var fh []string
+		for h := range lt.freshHeaps {
+			fh = append(fh, h)
+		}
+		sort.Strings(fh)
+		for _, h := range fh {
+			if lt.heaps[h] {
+				continue // also written directly: plain havoc below
+			}
+			if _, ok := f.w.heapSorts[h]; !ok {
+				continue
+			}
+			if st.pending == nil {
+				st.pending = map[string][]string{}
+			}
+			st.pending[h] = append(st.pending[h], al0)
+		}
+	}
 	if lt.all {
 		for _, h := range f.w.heapOrd {
 			hs = append(hs, h)
@@ -1168,4 +1194,47 @@ func (f *FuncCtx) fieldHeapStatic(x *ast.SelectorExpr) (name string) {
 	}
 	hn, _ := f.w.fieldHeap(owner, strings.Join(names, "."), ft, f.bv)
 	return hn
+}
+
+// sliceAliasCheck: slices are modelled as values, so two heap fields sharing one backing array cannot be seen by the model.
+// In functions marked `opt freshslices=1` (the Clone family: a clone must not share storage with its origin) a slice-typed
+// heap field may therefore only be assigned a freshly made slice (make / composite literal / nil / append to nil); copying an
+// existing slice header into a heap field is reported as a failed obligation.
+func (f *FuncCtx) sliceAliasCheck(st *State, lt types.Type, rhs ast.Expr) {
+	if f.con == nil || f.con.Opts["freshslices"] == "" || lt == nil {
+		return
+	}
+	if _, ok := types.Unalias(lt).Underlying().(*types.Slice); !ok {
+		return
+	}
+	fresh := false
+	switch r := ast.Unparen(rhs).(type) {
+	case *ast.CompositeLit:
+		fresh = true
+	case *ast.Ident:
+		fresh = r.Name == "nil"
+	case *ast.CallExpr:
+		if id, ok := ast.Unparen(r.Fun).(*ast.Ident); ok {
+			if id.Name == "make" {
+				fresh = true
+			}
+			if id.Name == "append" && len(r.Args) > 0 {
+				if a0, ok := ast.Unparen(r.Args[0]).(*ast.Ident); ok && a0.Name == "nil" {
+					fresh = true
+				}
+				if c0, ok := ast.Unparen(r.Args[0]).(*ast.CallExpr); ok {
+					// append([]T(nil), ...) / append(make(...), ...)
+					if tv, ok := f.tinfo().Types[c0.Fun]; ok && tv.IsType() {
+						fresh = true
+					}
+					if cid, ok := ast.Unparen(c0.Fun).(*ast.Ident); ok && cid.Name == "make" {
+						fresh = true
+					}
+				}
+			}
+		}
+	}
+	if !fresh {
+		f.oblige(st, "false", f.site("slicealias"), "slicealias", "a slice-typed heap field is assigned an existing slice (shared backing array; aliasing is outside the slice model)", nil, f.pos(rhs))
+	}
 }
